@@ -733,6 +733,8 @@ def main():
     payload = json.load(open(fin))
     out = []
     base = os.path.splitext(fout)[0]
+    import c11x_impl
+    c11x_impl.instrument()          # call counter of the functions of tenpy.networks.mpo / mpo_evolution (coverage table of the evidence)
     for n, case in enumerate(payload['cases']):
         npz = '%s_%d.npz' % (base, n)
         try:
@@ -745,12 +747,13 @@ def main():
             elif case['kind'] == 'results':
                 out.append(run_results(case, npz))
             elif case['kind'] == 'ext':
-                import c11x_impl
                 out.append(c11x_impl.run_ext(case, npz))
             else:
                 out.append(run_propagator(case, npz))
         except Exception:
             out.append({'runner_error': traceback.format_exc()[-1500:]})
+    if out:
+        out[-1]['api_calls'] = dict(c11x_impl.API_CALLS)
     json.dump(out, open(fout, 'w'))
 
 
